@@ -15,7 +15,7 @@ var zzC04Alpha = [][]zzOp{
 	},
 	{ // 1: parameters that split, removal of everything, prefix clean, Any
 		zzH("/{a}/x", "GET"), zzH("/{a}/y", "POST"), zzH("/{a}/x", "DELETE"), zzH("/k", "GET", "POST", "DELETE", "PUT", "PATCH", "CONNECT"),
-		zzRm("/{a}/x", "GET", "DELETE"), zzRm("/k", "CONNECT", "GET"), zzPCl("/{a}"), zzRm("/{a}/y"), zzH("/{a}/xz", "PUT"), zzRm("/nope", "GET"),
+		zzRm("/{a}/x", "GET", "DELETE"), zzRm("/k", "CONNECT", "GET"), zzPCl("/{a}"), zzRm("/{a}/y"), zzH("/{a}/xz", "PUT"), zzRm("/nope", "GET"), zzRm("/k", "get", "PROPFIND"),
 	},
 	{ // 2 (after a setup with a split literal node and an unrelated route): a sibling goes away and the survivor gets a new
 		// method; prefixes that end exactly on a node boundary, inside a segment, and on the parent
